@@ -129,7 +129,7 @@ def shrink(h, drv, prog, data, files, budget_s=60):
 def run(tier, seed, replay=None):
     rep = C.Report(PID, "other", tier, seed)
     t0 = time.time()
-    info, problems = C.prove(PID, ["HexVerif.X.Examples"])
+    info, problems = C.prove(PID, ["HexVerif.X.Examples", "HexVerif.Properties.C08"])
     h = C.build_harness("h_xcmp", extra_srcs=["hex.cpp"])
     drv = C.driver_exe("xsemdriver")
 
@@ -214,9 +214,29 @@ def run(tier, seed, replay=None):
     if problems:
         rep.violation("proof", {"broken": problems}, no_input=not bad_cases)
 
+    # the static theorems are about the Lean model of the compiler: its tie to the real xcmp (five stages, byte for byte)
+    model_corr = {}
+    try:
+        import subprocess, sys as _sys
+        outp = os.path.join(C.BUILD, "C08-c01model.json")
+        mr = subprocess.run([_sys.executable, os.path.join(C.ROOT, "runner", "c01model.py"), "--tier", tier],
+                            capture_output=True, text=True, timeout=3000,
+                            env=dict(os.environ, VERIF_SEED=str(seed + 1000), C01MODEL_OUT=outp))
+        if os.path.exists(outp):
+            model_corr = json.load(open(outp))
+            model_corr.pop("first_differences", None); model_corr.pop("generator_features", None); model_corr.pop("constructs", None)
+        model_corr["exit"] = mr.returncode
+        if mr.returncode != 0:
+            rep.violation("model-correspondence", {"broken": "Xcmp compiler model vs real xcmp differ (runner/c01model.py); the C08_static_* "
+                                                   "theorems are about that model", "detail": (mr.stdout + mr.stderr)[-3000:]},
+                          no_input=not bad_cases)
+    except Exception as e:   # pragma: no cover
+        rep.violation("model-correspondence", {"broken": "c01model.py could not run", "detail": str(e)}, no_input=not bad_cases)
+
     rep.coverage.update({
         "explanation": "dynamic check of the C08 clauses on real xcmp binaries executed instruction by instruction on the real hexsim "
-                       "with an access observer; the static frame-accounting theorem (C08_static, DESIGN.md section 6) is not discharged yet",
+                       "with an access observer; plus the static frame theorems C08_static_* / C08_store_discipline (Properties/C08.lean) about the "
+                       "Lean model of the code generator, which is compared with the real xcmp stage by stage",
         "evaluations": ndef, "generated_cases": len(cases), "boundary_cases": nb, "programs": nprog + len(BOUNDARY),
         "distinct_nontrivial": len({(G.to_sexp(p), d, f) for (p, d, f), (ref, acc) in zip(cases, results)
                                     if ref.startswith("ok ") and acc and (parse_acc(acc) or {}).get("status") == "ok"}),
@@ -225,7 +245,7 @@ def run(tier, seed, replay=None):
         "samples": [G.to_source(cases[nb][0])[:2500]] if len(cases) > nb else [BOUNDARY[0]],
         "run_status": dict(status), "violating_cases": len(bad_cases), "violation_classes": dict(classes),
         "max_stack_words_at_exit": max(spans) if spans else 0,
-        "feature_distribution": dict(sorted(feats.items())), "lean": info,
+        "feature_distribution": dict(sorted(feats.items())), "lean": info, "compiler_model_correspondence": model_corr,
         "traces_validated_against_impl": ndef - len(bad_cases),
     })
     rep.assumptions += ["well-definedness = X.run (lean/HexVerif/X/Sem.lean) defined", "the observer decodes each instruction from the "
